@@ -40,6 +40,36 @@ Theorem C07_frontends : forall (ts_ok : Z -> list Z -> bool) id data,
 Proof. exact frontends. Qed.
 Print Assumptions C07_frontends.
 
+(* second sentence of C07, as a corollary over an ABSTRACT segmenter / reassembler (to be instantiated with the
+   fast-packet functions of C03 / C04): if reassembling the reversed frames of `segment payload` yields the
+   reversed payload, then delivering those frames one by one through ANY mix of the three frame-level formats
+   hands `_decode` a sequence of frames whose reassembly is exactly the data that the pre-assembled formats
+   (Actisense, canboat with already_combined) hand over in one call — with the same PGN and addressing *)
+Theorem C07_assembled : forall (ts_ok : Z -> list Z -> bool)
+    (segment : list Z -> list (list Z)) (reasm : list (list Z) -> option (list Z)),
+  (forall payload, bytes_ok payload = true -> Forall (fun f => bytes_ok f = true) (segment payload)) ->
+  (forall payload, bytes_ok payload = true -> payload <> [] ->
+      reasm (map (@rev Z) (segment payload)) = Some (rev payload)) ->
+  forall id payload inputs,
+  0 <= id < 536870912 -> bytes_ok payload = true -> payload <> [] ->
+  Forall2 (renders ts_ok id) (segment payload) inputs ->
+  let '(pgn, src, dst, prio) := extract_header id in
+  (exists datas,
+      map (parse_frame_input ts_ok) inputs = map (fun d => Ok (Some (pgn, prio, src, dst, d, false))) datas /\
+      reasm datas = Some (rev payload)) /\
+  (forall sec ms ntok ptok dtoks tail,
+      acti_ts_ok sec ms -> tokval 16 ntok = Some (acti_build src dst prio) -> tokval 16 ptok = Some pgn ->
+      Forall2 (fun t b => length t = 2%nat /\ tokval 16 t = Some b) dtoks payload -> forallb is_ws tail = true ->
+      parse_acti (acti_line sec ms ntok ptok (concat dtoks) tail) = Ok (Some (pgn, prio, src, dst, rev payload, true))) /\
+  (forall ts ptok gtok stok dtok ltok dts extra,
+      basic_ts ts_ok ts -> dec_tok ptok prio -> dec_tok gtok pgn -> dec_tok stok src -> dec_tok dtok dst ->
+      dec_tok ltok (zlen payload) -> Forall2 (fun t b => tokval 16 t = Some b) dts payload ->
+      Forall (fun t => nocomma t /\ all_ascii t = true) extra -> dts ++ extra <> [] ->
+      parse_basic ts_ok (basic_line ts ptok gtok stok dtok ltok dts extra) true
+      = Ok (Some (pgn, prio, src, dst, rev payload, true))).
+Proof. exact assembled. Qed.
+Print Assumptions C07_assembled.
+
 (* the encoders' own spellings are such renderings: what encode_* writes is read back to the same tuple by the
    matching parser (the C06_roundtrip theorems), and by C07_frontends every other spelling of the same frame agrees with it *)
 
